@@ -35,7 +35,7 @@ type profile struct {
 
 func defaultProfile() profile {
 	return profile{
-		encsMain: []string{"I32"}, encsSmall: []string{"String16", "VarEnc", "Type", "Bytes3", "U64", "I8"},
+		encsMain: []string{"I32"}, encsSmall: []string{"String16", "VarEnc", "Type", "Bytes3", "U64", "I8", "Int"},
 		insts:  []string{h.InstFresh, h.InstUnm, h.InstProto},
 		needQs: true, nilVals: true,
 		quickIDk: 4, quickScafK: 3, thoroughIDk: 6, thoroughScafK: 4, u85k: 3,
@@ -121,7 +121,7 @@ func scaffoldSet(sp *spaceCtx, thorough bool, shorts []int, filter func(string) 
 		scs = append(scs, h.ScaffoldBigRoot(sp.sigma, wh))
 	}
 	scs = append(scs, h.ScaffoldBig2(sp.sigma, "in"), h.ScaffoldBig2(sp.sigma, "under"))
-	for k := 0; k < 4; k++ {
+	for k := 0; k < 5; k++ {
 		scs = append(scs, h.ScaffoldBigPair(k))
 	}
 	scs = append(scs, h.ScaffoldBigNibble(), h.ScaffoldBigAlias())
@@ -332,7 +332,13 @@ func buildPhases(r *h.Run, p profile) []phase {
 			}
 			u.encs = append([]string{}, p.encsMain...)
 			if small && len(sc.Keys) == sc.NVar() {
-				u.encs = append(u.encs, p.encsSmall...)
+				// String16 and VarEnc (variable width) on sets of <= 3 keys, the
+				// remaining encoders on sets of <= 2 keys
+				for _, e := range p.encsSmall {
+					if e == "String16" || e == "VarEnc" || strings.Contains(e, "L:") || sc.NVar() <= 2 {
+						u.encs = append(u.encs, e)
+					}
+				}
 			}
 			if p.needQs {
 				// the unlifted queries land in the fixed part, which is the same for
